@@ -14,7 +14,9 @@ engine with `save; load` inserted at every frame boundary must behave as the sam
 (programs with timed waits, threads, waitthread and locals of every archivable kind, shared arrays
 included), and it must agree with the machine executing `load (save s)`.
 
-Stated limitations (engine behaviour, not model gaps): posted events are not archived; a host
+Stated limitations (engine behaviour, not model gaps): posted events are not archived (hypothesis
+`hev`: the context loaded into holds the same pending timeout events as the saved state — after a
+`Reset` that means none, so a thread saved inside `waittill_timeout` loses its timeout); a host
 `Event` awaiting a thread's result is not part of the archive, so such a result stays pending.
 -/
 namespace Morfuse.Sched
@@ -25,7 +27,8 @@ theorem C09_roundtrip (s cur : State)
     (hcalls : ∀ e ∈ s.threads, e.2.call = none)
     (hprog : cur.prog = s.prog) (hpp : cur.progParams = s.progParams) (hclock : cur.clock = s.clock)
     (hscaled : cur.scaled = s.scaled) (hlast : cur.lastClock = s.lastClock) (hobjs : cur.objs = s.objs)
-    (hout : cur.out = s.out) (hc : cur.calls = s.calls) (hnc : cur.nextCall = s.nextCall) :
+    (hout : cur.out = s.out) (hc : cur.calls = s.calls) (hnc : cur.nextCall = s.nextCall)
+    (hev : cur.events = s.events) :
     load cur (save s) = s := by
   have hthreads : s.threads.map (fun e => (e.1, { e.2 with call := none })) = s.threads := by
     have : ∀ e ∈ s.threads, (fun (e : Nat × Th) => (e.1, { e.2 with call := none })) e = e := by
@@ -46,9 +49,10 @@ theorem C09_equal_futures {α : Type} (future : State → α) (s cur : State)
     (hcalls : ∀ e ∈ s.threads, e.2.call = none)
     (hprog : cur.prog = s.prog) (hpp : cur.progParams = s.progParams) (hclock : cur.clock = s.clock)
     (hscaled : cur.scaled = s.scaled) (hlast : cur.lastClock = s.lastClock) (hobjs : cur.objs = s.objs)
-    (hout : cur.out = s.out) (hc : cur.calls = s.calls) (hnc : cur.nextCall = s.nextCall) :
+    (hout : cur.out = s.out) (hc : cur.calls = s.calls) (hnc : cur.nextCall = s.nextCall)
+    (hev : cur.events = s.events) :
     future (load cur (save s)) = future s := by
-  rw [C09_roundtrip s cur hcur hdepth hfuel hcalls hprog hpp hclock hscaled hlast hobjs hout hc hnc]
+  rw [C09_roundtrip s cur hcur hdepth hfuel hcalls hprog hpp hclock hscaled hlast hobjs hout hc hnc hev]
 
 /-- a thread that still owes its result to a host `Event` loses that link: the result stays pending
     (the engine does not archive the host's `Event`) -/
@@ -68,6 +72,6 @@ def demoState : State :=
 
 example : load demoState (save demoState) = demoState :=
   C09_roundtrip demoState demoState rfl rfl rfl (by intro e he; simp [demoState] at he; rcases he with rfl | rfl <;> rfl)
-    rfl rfl rfl rfl rfl rfl rfl rfl rfl
+    rfl rfl rfl rfl rfl rfl rfl rfl rfl rfl
 
 end Morfuse.Sched
